@@ -16,7 +16,8 @@ CHECKS = {
                 ' Added: R-GETTER, R-GROW (value data sets have no fixed maximum), R-DCPL, R-MEMTYPE, R-NULL-CSTR.'
                 ' Round 6: Property/Section setters hand the given value to the backend verbatim or through the tabled normaliser (R-SETVERB).'
                 ' Round 7: R-GETVERB, R-STOREVERB; no rejection after a mutation in Property/Section entry points (R-MBT slice).'
-                ' Round 8: R-STRIO verbatim clause, R-STRBUF.',
+                ' Round 8: R-STRIO verbatim clause, R-STRBUF.'
+                ' Round 9: a value setter never removes its key; R-KEY follows file-local helpers one level.',
     },
     'C15': {
         'technique': 'static analysis: cell codec table agreement (Janus copyValue/copyData vs. to_data_type<T>), def-use rule for compound '
@@ -33,7 +34,8 @@ CHECKS = {
                 " Added: Janus member-of-cell clause, writeCells transfers the caller's list, R-STRIO, R-DCPL, R-GROW, R-MEMTYPE, R-SWAP, R-NULL-CSTR."
                 ' Round 6: column names and units are written and read back verbatim (R-DF-SCHEMA verbatim clause).'
                 ' Round 7: text- and index-keyed overloads default the same trailing parameters (R-DF-OVERLOAD).'
-                ' Round 8: R-EXACTCMP.',
+                ' Round 8: R-EXACTCMP.'
+                " Round 9: writeColumn hands the caller's count to the backend (R-DF-COUNT).",
     },
     'C01': {
         'technique': 'static analysis: writer/reader table agreement (DataType <-> HDF5 file/memory type, decoder, element size, to_data_type<T>) by '
@@ -50,7 +52,8 @@ CHECKS = {
                 ' Added during seeding rounds: string marshalling pairs element i with element i and defines every element (R-STRIO); Compression is forwarded down to the data set creation (R-FORWARD-COMP); data set creation / access / transfer property lists carry no setting from a deny list (fill time, fill value, lossy filters) (R-DCPL); resized data sets have no fixed maximum (R-GROW); raw transfers get a memory type made from the buffer element type (R-MEMTYPE) in the right argument positions (R-ROLE, R-SWAP); backend objects cache nothing (R-NOCACHE).'
                 ' Round 6: every normally returning path of DataArrayHDF5::write/read performs the data set transfer (R-IOPATH).'
                 ' Round 7: convertData converts on every returning path; appendData compares shapes, not element counts (R-APPEND).'
-                ' Round 8: setExtent hands the shape to H5Dset_extent on every path (R-SETEXTENT); calibrated reads refuse String (guards D29).',
+                ' Round 8: setExtent hands the shape to H5Dset_extent on every path (R-SETEXTENT); calibrated reads refuse String (guards D29).'
+                ' Round 9: replacing setters size their data set to the new length (R-REPLACE-EXTENT).',
     },
     'C02': {
         'technique': 'static analysis: storage-key agreement rule per backend field (setter / clearing overload / getter / creating constructor / '
@@ -76,7 +79,8 @@ CHECKS = {
                 ' Added: a child linked under the queried name is always found before any id search (R-NAMEFIRST); backend objects keep no stale lookup tables (R-NOCACHE); name/id filter predicates compare the attribute exactly (R-FILTER).'
                 ' Round 6: attribute searches accept a child only under exact equality (R-ATTRSEARCH); Identity carries the given name/id verbatim (R-IDENT).'
                 ' Round 7: get-name buffers have (queried length + 1) elements (R-NAMEBUF); text lookups go through the name-first helpers (R-LOOKUP-VIA).'
-                ' Round 8: R-STRBUF; whole-string, case-sensitive comparisons only (R-EXACTCMP).',
+                ' Round 8: R-STRBUF; whole-string, case-sensitive comparisons only (R-EXACTCMP).'
+                ' Round 9: deletion cascade and all-links rules (R-DEL) also run here.',
     },
     'C10': {
         'level': 'proof',
@@ -146,7 +150,8 @@ CHECKS = {
                 'preconditions and redirection of every label/unit/ticks accessor. Value equality on read-back and ticks written '
                 'through the aliased array are not decided.'
                 ' Added: key/getter/codec rules for dimension descriptors, R-TICKS (alias ticks replace the array), R-MBT slice for the append/create entry points, R-COLIDX, R-MEMTYPE.'
-                ' Round 7: dimension setters/getters and backend stores are verbatim (R-SETVERB, R-GETVERB, R-STOREVERB).',
+                ' Round 7: dimension setters/getters and backend stores are verbatim (R-SETVERB, R-GETVERB, R-STOREVERB).'
+                ' Round 9: backend functions identify a handle by id, not by name (R-BYHANDLE-BACK); R-REPLACE-EXTENT.',
     },
     'C18': {
         'technique': 'static analysis: constant-table agreement (regex alternatives / factor map / SI exponents), alternation-order '
@@ -215,7 +220,8 @@ CHECKS = {
                 'floating-point behaviour of the epsilon test (0.1-interval rounding) is NOT decided.'
                 ' Added: PositionMatch forwarding (R-FORWARD-PM), checked upper_bound idiom, exact-hit polynomial, loop-invariance of vector overloads, stale-size rule (R-STALE).'
                 ' Round 6: R-POSPASS; same-typed adjacent parameters are passed in declaration order (R-SWAP).'
-                ' Round 7: no element of a list is answered before the pair function was asked (R-PAIR-VEC bypass clause).',
+                ' Round 7: no element of a list is answered before the pair function was asked (R-PAIR-VEC bypass clause).'
+                ' Round 9: R-DISPATCH-TOTAL.',
     },
     'C05': {
         'technique': 'static analysis: abstract interpretation (boolean abstraction, loops as one arbitrary iteration, symbolic stores) of '
@@ -228,7 +234,8 @@ CHECKS = {
                 ' Added: the RangeMatch argument is forwarded to every callee (R-FORWARD); per-dimension containers are read at one index (R-PARALLEL); no function-static memo with an incomplete key (R-MEMO); the bounds predicate positionAndExtentInData is itself checked (R-INDATA); exact-hit test of the sampled helper is the polynomial r*interval+offset-position (R-MATCH); swapped-argument rule (R-SWAP); stale-size rule (R-STALE).'
                 ' Round 6: positionToIndex overloads delegate with the position unchanged (R-POSPASS).'
                 ' Round 7: R-UNIT-SCALEPOS with loop-carried state; per-dimension containers only grow at the end (R-ALIGNED).'
-                ' Round 8: R-NOSTATIC.',
+                ' Round 8: R-NOSTATIC.'
+                ' Round 9: no return ahead of the dispatch in the generic positionToIndex overloads (R-DISPATCH-TOTAL).',
     },
     'C06': {
         'technique': 'static analysis: abstract interpretation of getOffsetAndCount(MultiTag)/taggedData/featureData (all abstract '
@@ -239,7 +246,8 @@ CHECKS = {
                 'Element selection for particular floating-point positions is numeric: NOT decided.'
                 ' Added: rows are read at indices[idx] before each use, block reads only under a whole-list test; index bound for indexed/untagged features; R-FORWARD, R-PARALLEL, R-MEMO, R-INDATA, R-PAIR-VEC (no state carried between list elements), R-SWAP, R-STALE.'
                 ' Round 7: R-UNIT-SCALEPOS with loop-carried state; R-ALIGNED.'
-                ' Round 8: R-NOSTATIC.',
+                ' Round 8: R-NOSTATIC.'
+                ' Round 9: R-DISPATCH-TOTAL.',
     },
     'C17': {
         'technique': 'static analysis: abstract interpretation of dataSlice, DataView (ctor, transform_coordinates, ioRead/ioWrite) and '
@@ -251,7 +259,8 @@ CHECKS = {
                 'caller-owned vectors are bounded. Which elements a position pair selects is numeric: NOT decided.'
                 ' Added: NDSize comparisons are treated component-wise by the interpreter; guarded-subtraction idiom; R-INDATA; R-MEMO; R-UNIT-SCALEPOS; R-FILL understands padding through maximumExtents; R-SWAP.'
                 ' Round 7: start > end is tested on the padded vectors that are converted (R-SLICE, syntax-level facts); R-ALIGNED.'
-                ' Round 8: R-SETEXTENT.',
+                ' Round 8: R-SETEXTENT.'
+                ' Round 9: R-MATCH (exact-hit polynomial of the index helpers) also runs here.',
     },
     'C08': {
         'technique': 'static analysis: interprocedural clean/dirty typestate over the closed-world call graph and per-function CFGs '
@@ -264,7 +273,8 @@ CHECKS = {
                 'rejections raised inside libhdf5 are not decided.'
                 ' Added: conditional discharges require the validating loop to test under the key the later call uses; name-first lookups (R-NAMEFIRST); optGroup negative-memory clause (R-NOCACHE).'
                 ' Round 7: R-APPEND shape guard; element type compared before a resize (R-TYPEGATE), empty / Nothing columns and ranks above H5S_MAX_RANK refused before anything is created (R-DF-FRONT, R-RANKGATE) - these three guard the defects D26-D28, rejections that come from libhdf5 and that R-MBT does not see.'
-                ' Round 8: R-SETEXTENT.',
+                ' Round 8: R-SETEXTENT.'
+                ' Round 9: a repeated array in references(vector) is refused before the removal (R-REPLACE-DUP, guards D32).',
     },
     'C16': {
         'technique': 'static analysis: repository-specific lint set over the resolved program - guard-fact (dominance) rules for '
